@@ -92,6 +92,11 @@ Proof. exact Conn_Progress.quiescent_after_exit. Qed.
 (* the functions this property's model is an abstraction of still have the control / locking / shared-state skeleton the
    model was written against (Skeletons.v, by hand; Extracted.v, regenerated from /repo) *)
 Theorem c18_code_skeletons :
+  (* the hand-over channel is unbuffered: a request that was handed over is in the loop's hands (registered, or failed) and
+     none can be stranded in a queue when the loop ends; the response channel of a request holds one response, so
+     delivering to it never blocks (closeInFlight under its lock, a response racing the caller's cancellation) *)
+  JRGen.Extracted.requester_chan_makes =
+    ["setupRequestChan: make(chan clientRequest)"; "setupRequestChan: make(chan clientResponse, 1)"; "sendRequest: make(chan clientResponse, 1)"]%string /\
   JRGen.Extracted.effects_handleResponse = JR.Skeletons.handleResponse /\
   JRGen.Extracted.effects_closeInFlight = JR.Skeletons.closeInFlight /\
   JRGen.Extracted.effects_closeChans = JR.Skeletons.closeChans /\
